@@ -2,6 +2,7 @@
 Line-protocol driver for the random model and the C18 monitor.
   model   <ops>            : one observation line per op line
   monitor C18 <ops> <obs>  : evaluates Spec.C18 on the implementation's observation stream
+  monitor C12 <ops> <obs>  : the random slice of C12 (export / reimport / zero-height clauses only)
   monitor C13 <ops> <obs>  : the random slice of C13 (begin-block totality, queue hygiene, exactly-once)
 
 ops:
@@ -15,9 +16,13 @@ ops:
   random svc_respond ctx=<ctxid> seed=<hex32> cb=<1|0|rej>          (provider response through the real service module)
   random svc_break ctx=<ctxid> how=<delete|running>                 (environment: the context of a pending oracle request breaks)
   random genesis_pending consumer=<A_i> reqh=<int> due=<uint64> txhash=<hex> oracle=<0|1> feecap=<coins|-> ctx=<ctxid|->   (random.InitGenesis)
+  random export                                                     (real ExportGenesis + ValidateGenesis)
+  random reimport                                                   (wipe the module store, real InitGenesis of the export)
+  random reimport_zero                                              (PrepForZeroHeightGenesis first; the new chain is at height 1)
   random prng hash=<hex|-> t=<int> init=<hex|-> oracle=<0|1> seed=<hex|->        (pure)
 -/
 import Irismod.Spec.C18
+import Irismod.Spec.C12_Random
 
 namespace Driver.Random
 open Irismod Irismod.Random Irismod.Line
@@ -140,6 +145,21 @@ def parseState (t : List String) : Option State := do
     | _ => none
   return s
 
+def showGenesis (g : RandomGenesis.Genesis) : String :=
+  if g.isEmpty then "-" else
+  joinWith "|" (g.map fun (h, rs) => s!"{h}[{joinWith ";" (rs.map showReq)}]")
+
+def parseGenesis (s : String) : Option RandomGenesis.Genesis :=
+  if s = "-" then some [] else
+  (s.splitOn "|").mapM fun grp =>
+    match grp.splitOn "[" with
+    | [h, rest] => do
+      let hh ← h.toInt?
+      let body ← (match rest.splitOn "]" with | [b, ""] => some b | _ => none)
+      let rs ← (if body = "" then [] else body.splitOn ";").mapM fun r => parseReq (r.splitOn ":")
+      some (hh, rs)
+    | _ => none
+
 def resWord : Except Err State → String
   | .ok _ => "ok"
   | .error (.reject _) => "rej"
@@ -231,6 +251,18 @@ def modelLine (tbl : Table) (s : State) (line : String) : Table × State × Stri
       | none => (tbl, s, "bad-op")
     | none => (tbl, s, "bad-op")
   | "random" :: "prng" :: r => (tbl, s, (prngLine r).getD "bad-op")
+  | ["random", "export"] =>
+    let g := RandomGenesis.exportGenesis s
+    let v := match RandomGenesis.validateGenesis g with | .ok _ => "ok" | .error _ => "err"
+    (tbl, s, s!"ok validate={v} gen={showGenesis g}")
+  | ["random", "reimport"] =>
+    let r := RandomGenesis.importGenesis s (RandomGenesis.exportGenesis s)
+    let s' := match r with | .ok s' => s' | .error _ => s
+    (tbl, s', resWord r ++ " " ++ showState s')
+  | ["random", "reimport_zero"] =>
+    let r := RandomGenesis.restartZeroHeight s
+    let s' := match r with | .ok s' => s' | .error _ => s
+    (tbl, s', resWord r ++ " " ++ showState s')
   | _ =>
     match parseSvc tbl t with
     | some sl => let (s', w) := modelSvc s sl; (tbl, s', w ++ " " ++ showState s')
@@ -277,7 +309,7 @@ def runMonitor (prop : String) (ops obs : Array String) : IO Unit := do
       -- digits (or the call panicked, which only the zero block time may cause)
       steps := steps + 1
       let word := o.head?.getD ""
-      if prop == "C13" then
+      if prop != "C18" then
         pure ()
       else if word == "ok" then
         if !(Spec.C18.isDigits20 (arg o "value")) then
@@ -303,6 +335,40 @@ def runMonitor (prop : String) (ops obs : Array String) : IO Unit := do
           out.putStrLn s!"mon {prop} FAIL clause=service-end-block-frame line={i+1}"; fails := fails + 1
         pre := post
       | _, _ => out.putStrLn s!"mon {prop} FAIL clause=parse line={i+1}"; fails := fails + 1
+    | ["random", "export"] =>
+      steps := steps + 1
+      if prop != "C13" then
+        match parseGenesis (arg o "gen") with
+        | none => out.putStrLn s!"mon {prop} FAIL clause=parse line={i+1}"; fails := fails + 1
+        | some g =>
+          if arg o "validate" != "ok" then
+            out.putStrLn s!"mon {prop} FAIL clause=export-does-not-validate line={i+1}"; fails := fails + 1
+          if !(Spec.C12Random.exportOk pre g) then
+            out.putStrLn s!"mon {prop} FAIL clause=export-lost-or-altered-request line={i+1}"; fails := fails + 1
+    | ["random", "reimport"] =>
+      match parseState o with
+      | some p =>
+        steps := steps + 1
+        let post : State := { p with unix := pre.unix, hash := pre.hash, addrs := pre.addrs, ctxs := pre.ctxs }
+        if prop != "C13" then
+          if o.head? != some "ok" then
+            out.putStrLn s!"mon {prop} FAIL clause=reimport-failed line={i+1}"; fails := fails + 1
+          else if !(Spec.C12Random.queueSame pre.queue post.queue && pre.height == post.height) then
+            out.putStrLn s!"mon {prop} FAIL clause=reimport-changed-queue line={i+1}"; fails := fails + 1
+        pre := post
+      | none => out.putStrLn s!"mon {prop} FAIL clause=parse line={i+1}"; fails := fails + 1
+    | ["random", "reimport_zero"] =>
+      match parseState o with
+      | some p =>
+        steps := steps + 1
+        let post : State := { p with unix := pre.unix, hash := pre.hash, addrs := pre.addrs, ctxs := pre.ctxs }
+        if prop != "C13" then
+          if o.head? != some "ok" then
+            out.putStrLn s!"mon {prop} FAIL clause=reimport-failed line={i+1}"; fails := fails + 1
+          else if !(Spec.C12Random.queueSame (Spec.C12Random.rebased pre) post.queue && post.height == 1) then
+            out.putStrLn s!"mon {prop} FAIL clause=zero-height-rebase line={i+1}"; fails := fails + 1
+        pre := post
+      | none => out.putStrLn s!"mon {prop} FAIL clause=parse line={i+1}"; fails := fails + 1
     | "random" :: "svc_break" :: _ =>
       match parseSvc tbl t, parseState o with
       | some (.breakCtx c delete), some p =>
@@ -354,7 +420,8 @@ def runMonitor (prop : String) (ops obs : Array String) : IO Unit := do
           | .requestOracle _ _ _ _ _ _ (.ok c), "ok" => c :: pre.ctxs
           | _, _ => pre.ctxs
         let post : State := { p with unix := ux, hash := hs, addrs := pre.addrs, ctxs := ctxs }
-        for f in (if prop == "C13" then Spec.C18.checkC13 pre op word post else Spec.C18.check pre op word post) do
+        for f in (if prop == "C13" then Spec.C18.checkC13 pre op word post
+                  else if prop == "C12" then [] else Spec.C18.check pre op word post) do
           let cls := match f.cls with | some c => s!" class={c}" | none => ""
           out.putStrLn s!"mon {prop} FAIL clause={f.clause} line={i+1}{cls}"
           fails := fails + 1
@@ -370,6 +437,7 @@ def main (args : List String) : IO UInt32 := do
   match args with
   | ["model", ops] => runModel (← readLines ops); return 0
   | ["monitor", "C18", ops, obs] => runMonitor "C18" (← readLines ops) (← readLines obs); return 0
+  | ["monitor", "C12", ops, obs] => runMonitor "C12" (← readLines ops) (← readLines obs); return 0
   | ["monitor", "C13", ops, obs] => runMonitor "C13" (← readLines ops) (← readLines obs); return 0
   | _ => IO.eprintln "usage: model <ops> | monitor C18|C13 <ops> <obs>"; return 2
 
